@@ -62,3 +62,7 @@ _p("C11", "proof",
    )
 PROPS["C11"]["technique"] = "static analysis: ownership/effect abstract interpretation over the call graph"
 PENDING.pop("C11", None)
+
+_p("C16", "other",
+   "Static clauses of 'failures are JaqalErrors with a position; no sticky state'. C16.1: exception-escape analysis over the call graph from the nine parse/execute entry points (explicit raise statements, handler coverage lexically and at every call site, sly dispatch of parser/lexer actions, self-calls refined to constructed classes): every class that can escape is a JaqalError or an ImportError. C16.2: the sly Lexer subclass overrides error() with an always-raising JaqalError body. C16.3: no dereference after a joined `is None` test. C16.5: no unbound names and no un-imported submodule uses in reachable functions. C16.7: every raise_error() is preceded by a set_pos(). C16.8: history-dependence anti-patterns. This rule set detects; it does not prove absence of implicit exceptions (TypeError/KeyError from dynamically typed values) nor termination.")
+PENDING.pop("C16", None)
